@@ -14,6 +14,8 @@ use std::sync::{Condvar, Mutex};
 use std::time::{Duration, Instant};
 
 pub struct Prog {
+    /// (address, size, read-write) watchpoint candidates on the program's globals
+    pub watch_cands: Vec<(u64, u8, bool)>,
     pub built: Built,
     pub trace: RefTrace,
     pub dref: DwarfRef,
@@ -73,7 +75,21 @@ pub fn prepare(builts: Vec<Built>) -> Result<Vec<Prog>, String> {
             };
             let dref = dwarfref::load(&b.exe)?;
             let info = reftrace::elf_info(&b.exe)?;
-            Ok(Prog { built: b, trace, dref, base: info.base, entry: info.entry })
+            let mut watch_cands = vec![];
+            if let Some((_, addr, _)) = info.data_symbols.iter().find(|(n, _, sz)| n.contains("ACC") && *sz == 8) {
+                watch_cands.push((*addr, 8u8, false));
+                watch_cands.push((*addr, 4u8, true)); // same address: must be refused while the first is active
+            }
+            if let Some((_, addr, _)) = info.data_symbols.iter().find(|(n, _, _)| n.contains("HITS")) {
+                watch_cands.push((*addr + 80, 4u8, true));
+                watch_cands.push((*addr + 96, 2u8, false));
+                watch_cands.push((*addr + 112, 1u8, false));
+                watch_cands.push((*addr + 120, 8u8, false));
+                // 4-byte aligned but not 8-byte aligned: legal for a 4-byte watchpoint even in a
+                // slot that held an 8-byte one before
+                watch_cands.push((*addr + 84, 4u8, false));
+            }
+            Ok(Prog { watch_cands, built: b, trace, dref, base: info.base, entry: info.entry })
         })
         .collect()
 }
@@ -120,6 +136,14 @@ pub enum Action {
     Restart,
     /// commands that must fail without side effects
     BadBreak,
+    /// hardware watchpoint on watch candidate k
+    Watch(usize),
+    /// remove watch candidate k (by number / by address)
+    Unwatch(usize, bool),
+    /// detach, then look at the released process independently and let it finish
+    Detach,
+    /// drop the debugger
+    Drop,
 }
 
 impl Action {
@@ -135,6 +159,10 @@ impl Action {
             Action::Finish => "finish".into(),
             Action::Restart => "restart".into(),
             Action::BadBreak => "b 0x10".into(),
+            Action::Watch(k) => format!("watch+ #{k}"),
+            Action::Unwatch(k, n) => format!("watch- #{k}{}", if *n { " (by number)" } else { "" }),
+            Action::Detach => "detach".into(),
+            Action::Drop => "drop".into(),
         }
     }
 }
@@ -151,6 +179,10 @@ pub struct Model {
     pub lost: bool,
     /// signals of the reference trace (by delivery index) already accounted for
     pub sig_seen_upto: usize,
+    /// active watch candidates
+    pub watches: BTreeSet<usize>,
+    pub gone: bool,
+    pub restarts: u32,
 }
 
 impl Model {
@@ -186,6 +218,19 @@ pub fn command_json(p: &Prog, cands: &[Cand], a: &Action) -> Value {
         Action::Finish => json!({"op":"finish"}),
         Action::Restart => json!({"op":"restart"}),
         Action::BadBreak => json!({"op":"break_addr","addr":0x10}),
+        Action::Watch(k) => {
+            let (addr, size, rw) = p.watch_cands[*k];
+            json!({"op":"watch_addr","addr":addr,"size":size,"rw":rw,"wtag":k})
+        }
+        Action::Unwatch(k, by_num) => {
+            if *by_num {
+                json!({"op":"unwatch_num_of_tag","wtag":k})
+            } else {
+                json!({"op":"unwatch_addr","addr":p.watch_cands[*k].0})
+            }
+        }
+        Action::Detach => json!({"op":"detach","then":"post_detach_check"}),
+        Action::Drop => json!({"op":"drop"}),
     }
 }
 
@@ -209,6 +254,7 @@ pub struct Oracles {
     pub steps: bool,      // C03
     pub bt: bool,         // C05
     pub signals: bool,    // C10
+    pub dregs: bool,      // C14
 }
 
 pub struct Finding {
@@ -284,11 +330,76 @@ fn apply_inner(p: &Prog, cands: &[Cand], m: &mut Model, a: &Action, k_idx: usize
                 }
             }
             Action::BadBreak => {}
+            Action::Watch(c) => {
+                let (addr, _, _) = p.watch_cands[*c];
+                let full = m.watches.len() >= 4;
+                let same_addr = m.watches.iter().any(|w| p.watch_cands[*w].0 == addr);
+                let must_fail = full || same_addr || !m.started || m.exited;
+                if ok && !must_fail {
+                    m.watches.insert(*c);
+                } else if ok && must_fail && or.dregs {
+                    f.push(Finding { sig: format!("{prop}:watch:accepted-{}", if full { "fifth" } else if same_addr { "second-on-same-address" } else { "without-process" }), detail: format!("[{}] {}: {res}", p.name(), hist(k)) });
+                    m.watches.insert(*c);
+                } else if !ok && !must_fail && or.dregs {
+                    f.push(Finding { sig: format!("{prop}:watch:refused:{}", res["err"].as_str().unwrap_or("?")), detail: format!("[{}] {}: {}", p.name(), hist(k), res["msg"]) });
+                }
+            }
+            Action::Unwatch(c, _) => {
+                let had = m.watches.contains(c);
+                if ok && res["removed"].as_bool() == Some(true) {
+                    if !had && or.dregs {
+                        f.push(Finding { sig: format!("{prop}:unwatch:removed-something-not-set"), detail: format!("[{}] {}", p.name(), hist(k)) });
+                    }
+                    m.watches.remove(c);
+                } else if had && or.dregs && m.started && !m.exited {
+                    f.push(Finding { sig: format!("{prop}:unwatch:failed"), detail: format!("[{}] {}: {res}", p.name(), hist(k)) });
+                }
+            }
+            Action::Detach => {
+                m.gone = true;
+                if !ok {
+                    if or.teardown {
+                        f.push(Finding { sig: format!("{prop}:detach:failed:{}", res["err"].as_str().unwrap_or("?")), detail: format!("[{}] {}: {}", p.name(), hist(k), res["msg"]) });
+                    }
+                } else if or.teardown && m.started && !m.exited {
+                    let pd = &o["post_detach"];
+                    let st = pd["state_after_detach"].as_str().unwrap_or("?");
+                    if st == "t" || st == "T" {
+                        f.push(Finding { sig: format!("{prop}:detach:process-left-stopped"), detail: format!("[{}] {}: process state `{st}` after detach", p.name(), hist(k)) });
+                    }
+                    if pd["seized"].as_bool() == Some(true) {
+                        let diff = pd["text_diff"].as_array().map(|a| a.len()).unwrap_or(0);
+                        if diff != 0 {
+                            f.push(Finding { sig: format!("{prop}:detach:code-patches-left"), detail: format!("[{}] {}: {} patched bytes remain: {}", p.name(), hist(k), diff, pd["text_diff"]) });
+                        }
+                        if pd["dr7"].as_u64().map(|d| d & 0xff != 0).unwrap_or(false) {
+                            f.push(Finding { sig: format!("{prop}:detach:hardware-breakpoints-left"), detail: format!("[{}] {}: DR7 = {:#x}", p.name(), hist(k), pd["dr7"].as_u64().unwrap_or(0)) });
+                        }
+                    }
+                    if pd["exit_code"].as_i64() != Some(t.exit_code as i64) {
+                        f.push(Finding { sig: format!("{prop}:detach:released-process-wrong-exit"), detail: format!("[{}] {}: exit {:?}, native {}", p.name(), hist(k), pd["exit_code"], t.exit_code) });
+                    }
+                    if pd["stdout"].as_str() != Some(t.stdout.as_str()) && !path_has_restart(m) {
+                        f.push(Finding { sig: format!("{prop}:detach:released-process-wrong-output"), detail: format!("[{}] {}: output {:?}, native {:?}", p.name(), hist(k), pd["stdout"], t.stdout) });
+                    }
+                }
+                return;
+            }
+            Action::Drop => {
+                m.gone = true;
+                if or.teardown {
+                    if let Some(st) = res["left_state"].as_str() {
+                        f.push(Finding { sig: format!("{prop}:drop:process-left-behind:{}:{}", if st == "Z" { "zombie" } else { "alive" }, if !m.started { "not-started" } else if m.exited { "exited" } else { "stopped" }), detail: format!("[{}] {}: /proc/<pid> still exists in state `{st}` 20 ms after the debugger was dropped", p.name(), hist(k)) });
+                    }
+                }
+                return;
+            }
             Action::Start | Action::Continue | Action::Restart => {
                 if matches!(a, Action::Restart) {
                     m.idx = None;
                     m.exited = false;
                     m.sig_seen_upto = 0;
+                    m.restarts += 1;
                 }
                 if m.exited || (!m.started && matches!(a, Action::Continue)) {
                     // must fail, nothing changes
@@ -450,6 +561,43 @@ fn apply_inner(p: &Prog, cands: &[Cand], m: &mut Model, a: &Action, k_idx: usize
             }
         }
         // ---- invariants evaluated after every command
+        if or.dregs && m.started && !m.exited && !m.gone && o["alive"].as_bool().unwrap_or(false) {
+            let want: BTreeSet<(u64, u8, bool)> = m.watches.iter().map(|w| p.watch_cands[*w]).collect();
+            for th in o["dregs"].as_array().cloned().unwrap_or_default() {
+                let dr7 = th["dr7"].as_u64().unwrap_or(0);
+                let mut got: BTreeSet<(u64, u8, bool)> = BTreeSet::new();
+                let mut dup = false;
+                for n in 0..4u64 {
+                    let l = dr7 >> (2 * n) & 1 == 1;
+                    let g = dr7 >> (2 * n + 1) & 1 == 1;
+                    if g {
+                        f.push(Finding { sig: format!("{prop}:dregs:global-enable-bit-set"), detail: format!("[{}] {}: thread {} DR7 {dr7:#x}", p.name(), hist(k), th["tid"]) });
+                    }
+                    if l {
+                        let rw = dr7 >> (16 + 4 * n) & 3;
+                        let len = match dr7 >> (18 + 4 * n) & 3 { 0 => 1u8, 1 => 2, 3 => 4, _ => 8 };
+                        let addr = th["dr"][n as usize].as_u64().unwrap_or(0);
+                        if !got.insert((addr, len, rw == 3)) {
+                            dup = true;
+                        }
+                        if rw != 1 && rw != 3 {
+                            f.push(Finding { sig: format!("{prop}:dregs:bad-rw-field"), detail: format!("[{}] {}: DR7 {dr7:#x}", p.name(), hist(k)) });
+                        }
+                    }
+                }
+                if got != want || dup {
+                    let kind = if got.len() > want.len() || dup { "stale-or-extra-slot" } else if got.len() < want.len() { "missing-slot" } else { "wrong-address-length-or-condition" };
+                    // the model no longer describes the registers: do not explore beyond this state
+                    m.lost = true;
+                    f.push(Finding { sig: format!("{prop}:dregs:{kind}:after-{}", action_kind(a)), detail: format!("[{}] {}: thread {} has enabled slots {:x?} (DR7 {dr7:#x}), the active watchpoints are {:x?}", p.name(), hist(k), th["tid"], got, want) });
+                }
+            }
+            let listed: BTreeSet<u64> = o["wps"].as_array().map(|v| v.iter().filter_map(|w| w["addr"].as_u64()).collect()).unwrap_or_default();
+            let want_addrs: BTreeSet<u64> = want.iter().map(|w| w.0).collect();
+            if listed != want_addrs {
+                f.push(Finding { sig: format!("{prop}:watchpoint-list-differs"), detail: format!("[{}] {}: listed {:x?}, active {:x?}", p.name(), hist(k), listed, want_addrs) });
+            }
+        }
         if or.bt {
             if let (Some(i), Some(bt)) = (m.idx, o["bt"].as_array()) {
                 if !m.exited && !m.lost {
@@ -691,6 +839,10 @@ fn check_bt(p: &Prog, i: usize, bt: &[Value], fi: &Value, prop: &str, f: &mut Ve
     }
 }
 
+fn path_has_restart(m: &Model) -> bool {
+    m.restarts > 0
+}
+
 fn action_kind(a: &Action) -> &'static str {
     match a {
         Action::Start => "start",
@@ -703,6 +855,10 @@ fn action_kind(a: &Action) -> &'static str {
         Action::Finish => "finish",
         Action::Restart => "restart",
         Action::BadBreak => "failed-break",
+        Action::Watch(_) => "watch",
+        Action::Unwatch(..) => "unwatch",
+        Action::Detach => "detach",
+        Action::Drop => "drop",
     }
 }
 
@@ -716,7 +872,7 @@ pub fn canon(m: &Model, last_obs: Option<&Value>) -> String {
         .map(|v| v.iter().filter_map(|e| e["addr"].as_u64()).collect())
         .unwrap_or_default();
     format!(
-        "{}|{}|{:?}|{:?}|{:x?}|{:x?}|{}|{}",
+        "{}|{}|{:?}|{:?}|{:x?}|{:x?}|{}|{}|{:?}|{}",
         m.started,
         m.exited,
         m.idx,
@@ -724,7 +880,9 @@ pub fn canon(m: &Model, last_obs: Option<&Value>) -> String {
         diff,
         bps,
         m.lost,
-        m.sig_seen_upto
+        m.sig_seen_upto,
+        m.watches,
+        m.gone
     )
 }
 
@@ -751,10 +909,13 @@ pub struct ExploreCfg {
     pub remove_by_num: bool,
     pub bp_only_before_start: bool,
     pub continue_after_start: bool,
+    pub watches: usize,
+    pub terminals: bool,
     pub wall: Duration,
 }
 
 pub fn actions_for(m: &Model, cands: &[Cand], cfg: &ExploreCfg) -> Vec<Action> {
+    let p_watch_len = cfg.watches;
     let mut v = vec![];
     if !m.started {
         v.push(Action::Start);
@@ -779,6 +940,24 @@ pub fn actions_for(m: &Model, cands: &[Cand], cfg: &ExploreCfg) -> Vec<Action> {
     }
     if cfg.failing {
         v.push(Action::BadBreak);
+    }
+    if m.gone {
+        return vec![];
+    }
+    if m.started && !m.exited {
+        for k in 0..cfg.watches.min(p_watch_len) {
+            if m.watches.contains(&k) {
+                v.push(Action::Unwatch(k, k % 2 == 0));
+            } else {
+                v.push(Action::Watch(k));
+            }
+        }
+    }
+    if cfg.terminals {
+        v.push(Action::Drop);
+        if m.started && !m.exited {
+            v.push(Action::Detach);
+        }
     }
     v
 }
@@ -1113,12 +1292,14 @@ pub fn candidates(p: &Prog, n: usize) -> Vec<Cand> {
 
 pub fn oracles_for(prop: &str) -> Oracles {
     match prop {
-        "C01" => Oracles { projection: true, text: false, output: false, teardown: false, steps: false, bt: false, signals: false },
-        "C03" => Oracles { projection: false, text: false, output: false, teardown: false, steps: true, bt: false, signals: false },
-        "C05" => Oracles { projection: false, text: false, output: false, teardown: false, steps: false, bt: true, signals: false },
-        "C10" => Oracles { projection: true, text: true, output: true, teardown: false, steps: false, bt: false, signals: true },
-        "C02" => Oracles { projection: false, text: true, output: true, teardown: false, steps: false, bt: false, signals: false },
-        _ => Oracles { projection: true, text: true, output: true, teardown: true, steps: true, bt: true, signals: true },
+        "C01" => Oracles { projection: true, text: false, output: false, teardown: false, steps: false, bt: false, signals: false, dregs: false },
+        "C03" => Oracles { projection: false, text: false, output: false, teardown: false, steps: true, bt: false, signals: false, dregs: false },
+        "C05" => Oracles { projection: false, text: false, output: false, teardown: false, steps: false, bt: true, signals: false, dregs: false },
+        "C11" => Oracles { projection: true, text: true, output: true, teardown: true, steps: false, bt: false, signals: false, dregs: false },
+        "C14" => Oracles { projection: false, text: false, output: false, teardown: true, steps: false, bt: false, signals: false, dregs: true },
+        "C10" => Oracles { projection: true, text: true, output: true, teardown: false, steps: false, bt: false, signals: true, dregs: false },
+        "C02" => Oracles { projection: false, text: true, output: true, teardown: false, steps: false, bt: false, signals: false, dregs: false },
+        _ => Oracles { projection: true, text: true, output: true, teardown: true, steps: true, bt: true, signals: true, dregs: false },
     }
 }
 
